@@ -84,13 +84,24 @@ Definition neutral (s : st) : bool :=
 
 Definition is_sep (c : ascii) : bool := Ascii.eqb c SP || Ascii.eqb c RP.
 
+Definition LSB : ascii := "[".
+Definition RSB : ascii := "]".
+
+(** square brackets met at the top level (outside strings, literals and
+    parentheses) open / close a section specification such as
+    BODY[HEADER.FIELDS (DATE FROM)]: no token boundary inside *)
+Definition br_step (s : st) (br : nat) (c : ascii) : nat :=
+  if neutral s then (if Ascii.eqb c LSB then S br else if Ascii.eqb c RSB then pred br else br) else br.
+
+Definition boundary (s : st) (br : nat) : bool := neutral s && Nat.eqb br 0.
+
 (** the longest prefix that is one complete token: stops in front of the
-    first SP or ')' met outside strings/literals/nested lists *)
-Fixpoint take (s : st) (started : bool) (acc : str) (x : str) : option (str * str) :=
+    first SP or ')' met outside strings/literals/nested lists/sections *)
+Fixpoint take (s : st) (br : nat) (started : bool) (acc : str) (x : str) : option (str * str) :=
   match x with
-  | [] => if neutral s && started then Some (rev acc, []) else None
-  | c :: x' => if neutral s && started && is_sep c then Some (rev acc, x)
-               else take (step s c) true (c :: acc) x'
+  | [] => if boundary s br && started then Some (rev acc, []) else None
+  | c :: x' => if boundary s br && started && is_sep c then Some (rev acc, x)
+               else take (step s c) (br_step s br c) true (c :: acc) x'
   end.
 
 (** states a run INSIDE a response line never visits *)
@@ -98,11 +109,12 @@ Definition badish (s : st) : bool :=
   match fst s with Bad | SawCR | Start => true | _ => false end.
 
 (** run inside the line that [take] does not cut *)
-Fixpoint nosplit (s : st) (b : bool) (p : str) : option st :=
+Fixpoint nosplit (s : st) (br : nat) (b : bool) (p : str) : option (st * nat) :=
   match p with
-  | [] => Some s
-  | c :: p' => if neutral s && b && is_sep c then None
-               else let s' := step s c in if badish s' then None else nosplit s' true p'
+  | [] => Some (s, br)
+  | c :: p' => if boundary s br && b && is_sep c then None
+               else let s' := step s c in
+                    if badish s' then None else nosplit s' (br_step s br c) true p'
   end.
 
 (** [t] is exactly one token: non-empty, lexically complete, and [take] finds
@@ -110,7 +122,7 @@ Fixpoint nosplit (s : st) (b : bool) (p : str) : option st :=
 Definition tokb (t : str) : bool :=
   match t with
   | [] => false
-  | _ => match nosplit (Norm, 0) false t with Some (Norm, O) => true | _ => false end
+  | _ => match nosplit (Norm, 0) 0 false t with Some ((Norm, O), O) => true | _ => false end
   end.
 
 (** tok (SP tok)* ; returns the tokens and what follows them (a closing parenthesis, or nothing) *)
@@ -118,7 +130,7 @@ Fixpoint tokens (fuel : nat) (x : str) : option (list str * str) :=
   match fuel with
   | O => None
   | S f =>
-      match take (Norm, 0) false [] x with
+      match take (Norm, 0) 0 false [] x with
       | None => None
       | Some (t, []) => Some ([t], [])
       | Some (t, c :: r) =>
